@@ -122,44 +122,58 @@ def run(ctx):
     if n_calls < 40:
         ctx.report("C11-arity", "floor", "only %d resolvable calls found in base.sld" % n_calls, GR)
 
-    # ------------------------------------------------------------------ C11-cxr
-    ctx.rule("C11-cxr", "the twelve c[ad]{2,3}r procedures are the compositions their names spell")
-    for n in sorted(lib.defs):
-        m = re.fullmatch(r"c([ad]{2,3})r", n)
-        if not m:
-            continue
-        fm, body = lib.defs[n]
-        want = None
-        if fm and len(fm[0]) == 1 and not fm[1] and len(body) == 1:
-            x = Sym(fm[0][0])
-            want = x
-            for ch in reversed(m.group(1)):
-                want = SList([Sym("car" if ch == "a" else "cdr"), want])
-        got = body[0] if len(body) == 1 else None
+    # ------------------------------------------------------------------ C11-tables
+    ctx.rule("C11-tables", "every list procedure of base.sld named in the property, evaluated by abstract interpretation of its Scheme "
+                           "source on symbolic lists (proper 0..3, improper, nested; every index to one past the end; an opaque procedure "
+                           "argument whose calls are the events), agrees with its R7RS / minischeme definition: result, calls of the "
+                           "procedure argument in order, error when the list is too short")
+    from . import listtables
+    d_tables = listtables.rule_list_library(ctx, "C11-tables")
 
-        def normal(t, depth=6):
-            """expand (cXYr e) through the file's own single-expression definitions of shorter compositions, down to car / cdr"""
-            if isinstance(t, list) and len(t) == 2 and isinstance(t[0], Sym) and depth > 0:
-                inner = normal(t[1], depth)
-                h = t[0].name
-                mm = re.fullmatch(r"c([ad]{2,3})r", h)
-                if mm and h in lib.defs and h != n:
-                    out = inner
-                    for ch in reversed(mm.group(1)):
-                        out = SList([Sym("car" if ch == "a" else "cdr"), out])
-                    # only if that shorter composition is itself what its name spells (checked in its own iteration)
-                    return out
-                return SList([t[0], inner])
-            return t
-        ok = want is not None and (repr(want) == repr(got) or repr(want) == repr(normal(got)))
-        ctx.inst("C11-cxr", n, {"body": repr(got), "spelled": repr(want)})
-        if not ok:
-            ctx.report("C11-cxr", n, "%s is defined as %r, its name spells %r" % (n, got, want), GR)
-    ctx.floor("C11-cxr", 12)
+    def _old_shape_rules():
+        # ------------------------------------------------------------------ C11-cxr
+        ctx.rule("C11-cxr", "the twelve c[ad]{2,3}r procedures are the compositions their names spell")
+        for n in sorted(lib.defs):
+            m = re.fullmatch(r"c([ad]{2,3})r", n)
+            if not m:
+                continue
+            fm, body = lib.defs[n]
+            want = None
+            if fm and len(fm[0]) == 1 and not fm[1] and len(body) == 1:
+                x = Sym(fm[0][0])
+                want = x
+                for ch in reversed(m.group(1)):
+                    want = SList([Sym("car" if ch == "a" else "cdr"), want])
+            got = body[0] if len(body) == 1 else None
 
-    # ------------------------------------------------------------------ C11-structural
-    ctx.rule("C11-structural", "list procedures are guarded structural recursions applying their procedure once per element in order")
-    structural(ctx, mf, lib, info, GR)
+            def normal(t, depth=6):
+                """expand (cXYr e) through the file's own single-expression definitions of shorter compositions, down to car / cdr"""
+                if isinstance(t, list) and len(t) == 2 and isinstance(t[0], Sym) and depth > 0:
+                    inner = normal(t[1], depth)
+                    h = t[0].name
+                    mm = re.fullmatch(r"c([ad]{2,3})r", h)
+                    if mm and h in lib.defs and h != n:
+                        out = inner
+                        for ch in reversed(mm.group(1)):
+                            out = SList([Sym("car" if ch == "a" else "cdr"), out])
+                        # only if that shorter composition is itself what its name spells (checked in its own iteration)
+                        return out
+                    return SList([t[0], inner])
+                return t
+            ok = want is not None and (repr(want) == repr(got) or repr(want) == repr(normal(got)))
+            ctx.inst("C11-cxr", n, {"body": repr(got), "spelled": repr(want)})
+            if not ok:
+                ctx.report("C11-cxr", n, "%s is defined as %r, its name spells %r" % (n, got, want), GR)
+        ctx.floor("C11-cxr", 12)
+
+        # ------------------------------------------------------------------ C11-structural
+        ctx.rule("C11-structural", "list procedures are guarded structural recursions applying their procedure once per element in order")
+        structural(ctx, mf, lib, info, GR)
+
+
+    ctx.rule("C11-cxr", "the twelve c[ad]{2,3}r procedures are the compositions their names spell (fallback of C11-tables)")
+    ctx.rule("C11-structural", "list procedures are guarded structural recursions (fallback of C11-tables)")
+    ctx.guarded("C11-structural", d_tables, _old_shape_rules)
 
     # ------------------------------------------------------------------ C11-native
     ctx.rule("C11-native", "native car / cdr / cons / pair?: component selection and error edges")
